@@ -117,6 +117,10 @@ func (sc *SpecCtx) eval(x *SExpr) Val {
 
 func decimalToSMT(s string) string {
 	v := constant.MakeFromLiteral(s, token.FLOAT, 0)
+	if f, _ := constant.Float64Val(v); v.Kind() != constant.Unknown {
+		// a float literal in a contract denotes the float64 nearest to it, as in Go code
+		v = constant.MakeFloat64(f)
+	}
 	if v.Kind() == constant.Unknown {
 		// go/constant needs token kind; fall back
 		return s
